@@ -13,9 +13,55 @@ case kinds
   shape  {var}                         -> {'shape': [wraps, async def, return shape]}
   gen    {var, beh, ops}               -> {'flat': per op [0, value] | [1, who, len, path...], -1, events...}
   plain  {var, beh, body}              -> {'flat': [#events, events..., leaves(3), class]}
+
+circumstances (seq, deco, shape; all optional, the defaults are what the worker itself runs in)
+  switch      state of the global switch while the function is DECORATED: 'unset' | '0' | '1' (ENABLE_PEDANTIC deleted /
+              set to that text) | 'disabled' | 'enabled' (pedantic.disable_pedantic() / enable_pedantic() called) |
+              'inherit' (whatever the interpreter was started with)
+  switch_use  the same while the with statements run (default: as `switch`)
+  interp      [optimize level 0|1|2, 'flag' | 'env', ENABLE_PEDANTIC of the child's environment or null]: the case is run
+              in a child interpreter started with -O / -OO (or PYTHONOPTIMIZE=<level>) and that environment
 """
-import sys, json, functools, inspect, contextlib
+import sys, os, json, functools, inspect, contextlib, subprocess, threading
 import excs
+
+SWITCH = 'ENABLE_PEDANTIC'
+CHILD_TIMEOUT = 300     # seconds for one child interpreter (a few hundred small cases take about one second)
+
+
+STARTED_WITH = os.environ.get(SWITCH)      # what the interpreter was started with
+
+
+def set_switch(state):
+    if state == 'inherit':
+        if STARTED_WITH is None:
+            os.environ.pop(SWITCH, None)
+        else:
+            os.environ[SWITCH] = STARTED_WITH
+    elif state == 'unset':
+        os.environ.pop(SWITCH, None)
+    elif state == 'disabled':
+        import pedantic
+        pedantic.disable_pedantic()
+    elif state == 'enabled':
+        import pedantic
+        pedantic.enable_pedantic()
+    else:
+        os.environ[SWITCH] = state
+
+
+class SwitchScope:
+    """whatever a case does to the switch is undone afterwards"""
+    def __enter__(self):
+        self.saved = os.environ.get(SWITCH)
+        return self
+
+    def __exit__(self, *exc):
+        if self.saved is None:
+            os.environ.pop(SWITCH, None)
+        else:
+            os.environ[SWITCH] = self.saved
+        return False
 
 TICKS = 100000          # budget of suspension points per coroutine (never reached by a faithful tree)
 
@@ -230,17 +276,42 @@ def stmt_fn(var, depth, early, style):
 
 
 def run_seq(case):
+    with SwitchScope():
+        return run_seq_core(case)
+
+
+def run_seq_core(case):
     from pedantic.decorators import safe_contextmanager, safe_async_contextmanager   # the public names
     var = case['var']
     deco = safe_contextmanager if var == 'sync' else safe_async_contextmanager
+    sw_deco = case.get('switch', 'inherit')
+    sw_use = case.get('switch_use', sw_deco)
     ctx = Ctx()
     ctx.suspend = bool(case.get('suspend')) and var == 'async'
-    shared = deco(make_genfn(ctx, var)) if case.get('shared') else None
+
+    def decorate():
+        set_switch(sw_deco)
+        try:
+            return deco(make_genfn(ctx, var))
+        finally:
+            set_switch(sw_use)
+
+    try:
+        shared = decorate() if case.get('shared') else None
+    except Budget:
+        raise
+    except BaseException as e:
+        return {'flat': [-4] + enc_class(e), 'exc': type(e).__name__}
     results = []
     for item in case['items']:
         uses = [dict(u) for u in item['uses']]
-        for u in uses:
-            u['dec'] = shared if shared is not None else deco(make_genfn(ctx, var))
+        try:
+            for u in uses:
+                u['dec'] = shared if shared is not None else decorate()
+        except Budget:
+            raise
+        except BaseException as e:
+            return {'flat': [-4] + enc_class(e), 'exc': type(e).__name__}
         ctx.uses = uses
         ctx.fell = False
         del ctx.pending[:]
@@ -313,14 +384,37 @@ def run_deco(case):
     from pedantic.decorators import safe_contextmanager, safe_async_contextmanager   # the public names
     deco = safe_contextmanager if case['var'] == 'sync' else safe_async_contextmanager
     f = make_callable(case['fkind'], case['form'])
+    with SwitchScope():
+        set_switch(case.get('switch', 'inherit'))
+        try:
+            d = deco(f)
+        except BaseException as e:
+            return {'deco': [1] + enc_class(e), 'exc': type(e).__name__}
+    # accepted.  [0]: what comes back is built around a wrapper of f;  [2, what]: f itself (0) or contextlib's helper
+    # directly around f (1 contextmanager, 2 asynccontextmanager, 9 something else) - no wrapper in between
+    how = [0]
     try:
-        d = deco(f)
-    except BaseException as e:
-        return {'deco': [1] + enc_class(e), 'exc': type(e).__name__}
-    return {'deco': [0], 'exc': None, 'callable': callable(d)}
+        if d is f:
+            how = [2, 0]
+        elif getattr(d, '__wrapped__', None) is f:
+            obj = d()
+            how = [2, 1 if isinstance(obj, contextlib._GeneratorContextManager) else
+                   2 if isinstance(obj, contextlib._AsyncGeneratorContextManager) else 9]
+            g = getattr(obj, 'gen', None)
+            if hasattr(g, 'close'):
+                g.close()
+    except BaseException:
+        how = [2, 9]
+    return {'deco': how, 'exc': None, 'callable': callable(d)}
 
 
 def run_shape(case):
+    with SwitchScope():
+        set_switch(case.get('switch', 'inherit'))
+        return run_shape_core(case)
+
+
+def run_shape_core(case):
     from pedantic.decorators import safe_contextmanager, safe_async_contextmanager   # the public names
     if case['var'] == 'sync':
         def some_generator(*a, **k):
@@ -516,16 +610,78 @@ def run_plain(case):
 RUN = {'seq': run_seq, 'deco': run_deco, 'shape': run_shape, 'gen': run_gen, 'plain': run_plain}
 
 
+def run_local(c):
+    try:
+        return RUN[c['kind']](c)
+    except BaseException as ex:   # harness-level failure
+        return {'error': repr(ex)}
+
+
+def interp_key(c):
+    k = c.get('interp') or [0, 'flag', None]
+    return (int(k[0]), str(k[1]), k[2])
+
+
+def run_children(groups, results):
+    """groups: {interp key: [(index, case)]}.  One child interpreter per key, all at once, each under a timeout."""
+    def one(key, members):
+        level, via, env_switch = key
+        env = dict(os.environ)
+        env.pop('PYTHONOPTIMIZE', None)
+        env.pop(SWITCH, None)
+        cmd = [sys.executable]
+        if level and via == 'env':
+            env['PYTHONOPTIMIZE'] = str(level)
+        elif level:
+            cmd.append('-' + 'O' * level)
+        if env_switch is not None:
+            env[SWITCH] = env_switch
+        cmd += [os.path.abspath(__file__), '--child', json.dumps(key)]
+        try:
+            p = subprocess.run(cmd, input=json.dumps([c for _, c in members]), capture_output=True, text=True,
+                               timeout=CHILD_TIMEOUT, env=env)
+            lines = [l for l in p.stdout.splitlines() if l.startswith('{')]
+            err = f'child interpreter {key}: exit {p.returncode}, {len(lines)} of {len(members)} results; {p.stderr[-300:]}'
+        except subprocess.TimeoutExpired:
+            lines, err = [], f'child interpreter {key}: no result within {CHILD_TIMEOUT} s'
+        except BaseException as ex:
+            lines, err = [], f'child interpreter {key}: {ex!r}'
+        for n, (i, _) in enumerate(members):
+            try:
+                results[i] = json.loads(lines[n])
+            except Exception:
+                results[i] = {'error': err}
+
+    ths = [threading.Thread(target=one, args=(k, m)) for k, m in groups.items()]
+    [t.start() for t in ths]
+    [t.join() for t in ths]
+
+
 def main():
     import warnings
     warnings.simplefilter('ignore')
     cases = json.load(sys.stdin)
-    for c in cases:
-        try:
-            r = RUN[c['kind']](c)
-        except BaseException as ex:   # harness-level failure
-            r = {'error': repr(ex)}
-        print(json.dumps(r), flush=True)
+    if len(sys.argv) >= 3 and sys.argv[1] == '--child':
+        # a child interpreter: check that it really runs in the circumstances it was started for, then run everything here
+        level, via, env_switch = json.loads(sys.argv[2])
+        ok = sys.flags.optimize == level and os.environ.get(SWITCH) == env_switch
+        for c in cases:
+            r = run_local(c) if ok else {'error': f'child interpreter runs with optimize={sys.flags.optimize}, '
+                                                  f'{SWITCH}={os.environ.get(SWITCH)!r} instead of {level}, {env_switch!r}'}
+            print(json.dumps(r), flush=True)
+        return
+    here = (sys.flags.optimize, 'flag', os.environ.get(SWITCH))
+    results = [None] * len(cases)
+    groups = {}
+    for i, c in enumerate(cases):
+        if c.get('kind') in ('seq', 'deco', 'shape') and interp_key(c) != here:
+            groups.setdefault(interp_key(c), []).append((i, c))
+    if groups:
+        run_children(groups, results)
+    for i, c in enumerate(cases):
+        if results[i] is None:
+            results[i] = run_local(c)
+        print(json.dumps(results[i]), flush=True)
 
 
 if __name__ == '__main__':
